@@ -19,12 +19,12 @@ from props import c06_util as X
 PROP = "C06"
 LEVEL = "proof"
 GEN_UNITS = ["GenUtils", "GenSptensor4"]     # GenSptensor4: Props/C06W4.v C06_gen_permute / C06_gen_ones are about the generated whole methods
-COQ_TARGETS = ["Props/C06.vo", "Props/C06W4.vo", "Props/C06W5.vo", "Model/C06Stm.vo", "Model/C06Cont.vo", "Model/C06W4.vo", "Model/C06W5.vo", "Model/Harness.vo"]
+COQ_TARGETS = ["Props/C06.vo", "Props/C06W4.vo", "Props/C06W5.vo", "Model/C06Stm.vo", "Model/C06Cont.vo", "Model/C06W4.vo", "Model/C06W5.vo", "Model/C06SetSubs.vo", "Model/Harness.vo"]
 THEOREM_FILES = ["Props/C06.v", "Props/C06W4.v", "Props/C06W5.v"]
 COQ_IMPORTS = ("From Coq Require Import List ZArith Bool QArith Qcanon.\n"
                "From PV Require Import Base.Index Np.Array Model.Sparse Model.Repr Model.Harness Model.C03Ops Model.C06Ops Model.C01Conv Model.C06Stm Model.C06Cont\n"
                "                       Model.C02Spec Model.C02Sparse Model.C02SpKernels Model.C02SpMore Model.C07Ops\n"
-               "                       Gen.GenUtils Model.C03Gen Model.C03Chk2 Model.C01Unique Model.C01Coo Model.C06W4 Model.C06W5.\n"
+               "                       Gen.GenUtils Model.C03Gen Model.C03Chk2 Model.C01Unique Model.C01Coo Model.C06W4 Model.C06W5 Model.C06SetSubs.\n"
                'Set Warnings "-abstract-large-number".\n')
 RULE = ("stream 1: every C03 request (operator x right-hand-side kind) on all zero-pattern pairs of the shapes (2,2) [operators rotated] and "
         "(3,) [all operators], plus seeded larger shapes; squash and from_aggregator with permuted input rows. stream 2 (admissible requests "
@@ -59,13 +59,17 @@ RULE = ("stream 1: every C03 request (operator x right-hand-side kind) on all ze
         "constructor and from_array (dense and scipy-coo input, repeated / cancelling / zero triples) are re-run with the triples in "
         "all m! orders (m <= 4; identity / reversed / 3 random beyond) and tied to C01's constructor models up to stored order. WAVE 5: "
         "ONE subscript assignment that zeroes stored entries, overwrites OTHER stored entries and creates new ones (targets in random "
-        "order, optionally a second call), for all n! stored orders of the receiver, the result tied to the assigned array (sp_den_is, all "
-        "setitem requests made of subscript steps); from_aggregator with np.max / np.min / np.prod / len / first-of-group on repeated rows "
+        "order, optionally a target listed twice, optionally a second call), for all n! stored orders of the receiver, the result tied to the "
+        "assigned array (sp_den_is, all setitem requests made of subscript steps) and EVERY run tied to the positional transliteration "
+        "set_subscripts on the receiver as stored in that run; from_aggregator with np.max / np.min / np.prod / len / first-of-group on repeated rows "
         "(every run = the model on the rows as listed; all runs the same result except for `first`); sparse masks without stored "
         "entries (ordinary since /repo 5f8b038); scale with ill-sized factors on receivers with and without entries (refused alike since "
         "/repo d89c921) and admissible factors on empty receivers; the huge sparse*sparse and innerprod observations are what the "
         "linear-time walks minner / mmul compute from the operands listed ascending (huge_mul_ok, huge_inner_ok), huge mask tied to impl_mask_sp (thorough)")
-EXPLANATION = ("WAVE 5 (Props/C06W5.v, 11 theorems): collapse with such a reducer keeps the container kind and the result for every stored order "
+EXPLANATION = ("WAVE 5 (Props/C06W5.v, 17 theorems): `S[subs] = vals` BY POSITION as sptensor._set_subscripts computes it (positions looked up once, "
+               "overwrite in place, delete by position, append) is well-formed, denotes the assigned array and is the same result for every stored "
+               "order (C06_set_subscripts, C06_set_subscripts_indep; with repeated targets, the last one wins: C06_set_subscripts_total, _total_indep), while deleting before overwriting is refuted "
+               "(C06_set_subscripts_delete_first_refuted); collapse with such a reducer keeps the container kind and the result for every stored order "
                "(C06_cont_collapse_reducer_indep, _wf); innerprod with a Kruskal operand IS the sum over all subscripts (C06_innerprod_kruskal_value); "
                "sptendiag is well-formed and denotes the super-diagonal (C06_sptendiag); from_aggregator with ANY reducer that does not look at the order of its group gives the same result "
                "for every order of the input rows (C06_from_aggregator_any_reducer_indep; max / min / prod / len are such reducers, first-of-group "
@@ -110,13 +114,18 @@ CORRESPONDENCE_ONLY = [
     "(scipy's own stored count decides; both outcomes are tied to ttm_Ynt / its expansion); collapse with a function other than sum; ttv / "
     "collapse / contract containers are PROVED (C06_cont_ttv, _collapse, _contract) over the hand-written assembly model Model/C06Cont.v "
     "(from_aggregator is C03's model, not the translator's), tied to pyttb by the first-run comparison kres_matches",
-    "__getitem__ of sptensor beyond the C04 state machine's paths; __setitem__: C06_ops_setitem_total / C06_ops_region_set are about the C04 "
-    "state machine step_sparse (tied to pyttb by C04's correspondence); C06 itself generates and observes these requests (raw bits, order "
-    "independence) without re-evaluating step_sparse; reshape with old_modes: C06_ops_reshape_modes + first-run tie",
+    "__getitem__ of sptensor beyond the C04 state machine's paths (S[array of subscripts] is tied to impl_extract since wave 5); __setitem__ "
+    "with a REGION key: C06_ops_setitem_total / C06_ops_region_set are about the C04 state machine step_sparse (tied to pyttb by C04's "
+    "correspondence); C06 itself generates and observes these requests (raw bits, order independence) without re-evaluating step_sparse. "
+    "Assignments at listed subscripts are PROVED since wave 5 over C06's own positional transliteration of _set_subscripts "
+    "(C06_set_subscripts, _indep, and with the de-duplication of repeated targets — the last one wins — C06_set_subscripts_total, "
+    "_total_indep; every run tied to set_subscripts on the receiver as stored in that run; the SORTING done by np.unique — it only decides "
+    "the stored order of appended entries —, the broadcast of a scalar and the growth of the shape/order in front of it are not in the "
+    "transliteration: the stream keeps targets in bounds); reshape with old_modes: C06_ops_reshape_modes + first-run tie",
     "squash: C06_squash / C06_ops_squash are about the specified behaviour, C06_squash_asis(+_indep,+_spec_iff) about pyttb's (open finding "
     "A-27, pinned by the squash doctest); pyttb is tied to the specified model outside the trigger and to squash_asis inside it",
     "sptenmat constructor with copy=False (stores the triples as given: nothing to prove; histories observe it), sptenmat.from_array of a "
-    "dense matrix (C01_from_array_dense; tied to from_array_dense by the first run, no C06 re-export)",
+    "dense matrix: C01's theorem re-exported since wave 5 (C06_stm_from_dense; tied to from_array_dense by the first run)",
     "huge operands (> 2**22 candidate row pairs): runs compared with each other (linear-time checkers); model tie for extract, mask (impl_extract / "
     "impl_mask_sp), sparse*sparse and innerprod (proved walks mmul / minner: C06_huge_mul_sound, C06_huge_inner_sound); and / le / getitem: runs compared only",
     "chains, memory layouts, generators sptenrand, from_function: observed only (sptendiag: PROVED since wave 5, C06_sptendiag over the transliteration "
